@@ -571,21 +571,32 @@ def run_task(task, acc):
                                   sig='iterator-after-mutation:' + op[0])
                     continue
                 # read transparency: the same operation after every kind of query must lead to the same observable value
-                # (an answer remembered by a query must not survive the mutation that invalidates it)
+                # (an answer remembered by a query must not survive the mutation that invalidates it) - once with one round
+                # of queries right before the operation, once with a round after every step of the history, each time
+                # continuing on a copy (a remembered answer must not travel with the copy either)
+                rcase = None
                 try:
-                    w2 = build(hh + [['read'], op])
-                    if model.observe(w2) != model.observe(w):
-                        acc.violation('read-changes-future', {'kind': 'read', 'hist': hh, 'op': op},
-                                      'after %r the value is %s, but %s when it has been read (str, to_str, flags, queries) before'
-                                      % (op, model.describe_obs(model.observe(w)), model.describe_obs(model.observe(w2))),
-                                      sig='read-changes-future:' + op[0])
-                        continue
+                    qv = model.query_vector(w)
+                    for variant in ('read', 'read+copy'):
+                        rcase = {'kind': 'read', 'hist': hh, 'op': op, 'variant': variant, 'seed_len': len(h0)}
+                        w2 = build(read_variant(hh, op, variant, len(h0)))
+                        q2 = model.query_vector(w2)
+                        if q2 != qv:
+                            acc.violation('read-changes-future', rcase,
+                                          'after %r the value answers %s, but %s when it has been queried (%s) before'
+                                          % (op, first_query_diff(qv, q2)[0], first_query_diff(qv, q2)[1], variant),
+                                          sig='read-changes-future:' + op[0])
+                            break
+                    else:
+                        rcase = None
                 except env.HarnessError:
                     raise
                 except Exception as e:  # noqa
-                    acc.violation('read-changes-future', {'kind': 'read', 'hist': hh, 'op': op},
-                                  'after %r: reading before the operation makes it raise %s: %s' % (op, type(e).__name__, e),
+                    acc.violation('read-changes-future', rcase or {'kind': 'read', 'hist': hh, 'op': op, 'variant': 'read', 'seed_len': len(h0)},
+                                  'after %r: querying before the operation makes it raise %s: %s' % (op, type(e).__name__, e),
                                   sig='read-changes-future:' + op[0])
+                    continue
+                if rcase is not None:
                     continue
                 if ch in seen:
                     acc.validated += 1
@@ -602,6 +613,24 @@ def run_task(task, acc):
         frontier = nxt
     acc.evaluations += len(seen)
     acc.sample({'kind': 'hist', 'hist': frontier[0] if frontier else h0})
+
+
+def read_variant(hh, op, variant, seed_len):
+    if variant == 'read':
+        return hh + [['read'], op]
+    inter = list(hh[:seed_len])
+    for st in hh[seed_len:] + [op]:
+        inter += [['read'], ['copy'], st]
+    return inter
+
+
+def first_query_diff(a, b):
+    if not (isinstance(a, tuple) and isinstance(b, tuple) and len(a) == len(b)):
+        return (repr(a)[:200], repr(b)[:200])
+    for x, y in zip(a, b):
+        if x != y:
+            return (repr(x)[:200], repr(y)[:200])
+    return ('', '')
 
 
 def replay(case):
@@ -621,8 +650,9 @@ def replay(case):
             return [('iterator-after-mutation', '%s: %s' % (type(e).__name__, e))]
     if case['kind'] == 'read':
         try:
-            w, w2 = build(case['hist'] + [case['op']]), build(case['hist'] + [['read'], case['op']])
-            return [] if model.observe(w) == model.observe(w2) else [('read-changes-future', 'differs')]
+            w = build(case['hist'] + [case['op']])
+            w2 = build(read_variant(case['hist'], case['op'], case.get('variant', 'read'), case.get('seed_len', 1)))
+            return [] if model.query_vector(w) == model.query_vector(w2) else [('read-changes-future', 'differs')]
         except Exception as e:  # noqa
             return [('read-changes-future', '%s: %s' % (type(e).__name__, e))]
     if case['kind'] == 'call':
